@@ -253,9 +253,15 @@ func ParseParameters(query string) []oid.Oid {
 			parameters = append(parameters, 0)
 		}
 
+		// NOTE: a statement cannot have more parameters than the protocol is
+		// able to bind, positions out of range are clamped to that limit.
 		position, _ := strconv.Atoi(match[1]) //nolint:errcheck
+		if position > buffer.MaxPreparedStatementArgs {
+			position = buffer.MaxPreparedStatementArgs
+		}
+
 		if position > len(parameters) {
-			parameters = parameters[:position]
+			parameters = append(parameters, make([]oid.Oid, position-len(parameters))...)
 		}
 	}
 
